@@ -312,6 +312,11 @@ CORNERS = [
     dict(sizes=[2, 3, 2], monos=[1, 0, 1], ew=[[0, 1, 1], [2, 1, -1]], tz=[[0, 1, 1]]),
     dict(sizes=[3, 2], monos=[1, 1], ew=[], tz=[]),
     dict(sizes=[2, 2], monos=[0, 0], ew=[], tz=[]),
+    # more than one constraint of the same family
+    dict(sizes=[2, 2, 2], monos=[1, 1, 1], ew=[], tz=[], mono_dom=[[0, 1], [1, 2]]),
+    dict(sizes=[2, 2, 2], monos=[1, 1, 1], ew=[], tz=[], range_dom=[[0, 1], [0, 2]]),
+    dict(sizes=[2, 2, 2], monos=[0, 0, 0], ew=[], tz=[], joint_mono=[[0, 1], [1, 2]]),
+    dict(sizes=[2, 2, 2], monos=[1, 0, 0], ew=[[0, 1, 1], [0, 2, -1]], tz=[]),
 ]
 
 
